@@ -297,7 +297,9 @@ def prop_C16(ctx):
 def prop_C19(ctx):
     ctx.build()
     # multi-error and multi-group inputs come from composites and the struct grid; soup adds rejected inputs
-    items = sample(ctx.rng, gen.grid_struct_lines(), 600) + gen.composites(ctx.rng, ctx.sz['comp'] // 3) + gen.soup(ctx.rng, ctx.sz['soup'] // 6)
+    items = sample(ctx.rng, gen.grid_struct_lines(), 600) + gen.composites(ctx.rng, ctx.sz['comp'] // 3) + gen.soup(ctx.rng, ctx.sz['soup'] // 6) \
+        + gen.c19_cases(ctx.rng, 600 if ctx.tier == 'quick' else 6000) + [p[0] for p in gen.c14_trait_cases(ctx.rng, 400 if ctx.tier == 'quick' else 4000)] \
+        + [i for i in gen.c15_bases(ctx.rng, 100)]
     recs = ctx.run_set('determinism', items, vlib.obs_full, flags=('--twice',))
     cases = [(r['id'], r['text']) for r in recs]
     same_proc = 0
